@@ -572,6 +572,7 @@ class VerifyMixin:
                     e2[nm] = v
                     nxt.append((s2, e2))
             entries = nxt
+        self.check_defaults(c, key, mi, fnode)
         n_paths = 0
         exits = []
         for s, env in entries:
@@ -587,6 +588,32 @@ class VerifyMixin:
         # vacuity guards
         self.vacuity(c, key, n_paths, exits)
         return self.results[n_before:]
+
+    def check_defaults(self, c, key, mi, fnode):
+        """A default declared in the contract (callers rely on it) must be the literal default of the source."""
+        a = fnode.args
+        pos = a.posonlyargs + a.args
+        src = {}
+        for arg, d in zip(pos[len(pos) - len(a.defaults):], a.defaults):
+            src[arg.arg] = d
+        for arg, d in zip(a.kwonlyargs, a.kw_defaults):
+            if d is not None:
+                src[arg.arg] = d
+        for nm, T, has_d, d in c.params:
+            if not has_d or nm not in src or not isinstance(d, V):
+                continue
+            node = src[nm]
+            if not self._is_literal(node):
+                continue
+            st0 = self._scratch_state(mi.name)
+            sv = self._one(self.ev(node, st0))
+            try:
+                same = z3.simplify(self.eq(sv, d, st0)) if not (isinstance(sv, VTuple) and isinstance(d, VNone)) else z3.BoolVal(True)
+            except EngineError:
+                continue
+            ok = z3.is_true(same)
+            self.results.append(VCResult(f"{key}:defaults/{nm}", self.prop_of(None), key, "unsat" if ok else "sat", "ast-scan", 0.0,
+                                         [f"source default {ast.unparse(node)} vs contract default {d!r}"], None, kind="structural"))
 
     def _verify_entry(self, c, key, mi, fnode, s, env, src_names, exits):
         fr = s.frame
